@@ -153,21 +153,30 @@ Section G.
   | step_ent : forall e oci ev',
       ent_exec e oci (g_ent g) = Ok ev' -> step g (with_ent g ev').
 
-  Lemma apply_upd_inv : forall g acct u, Inv g -> upd_shape u -> upd_small u -> Inv (apply_upd g acct u).
+  Lemma apply1_inv : forall g acct c, Inv g -> change_shape junmarshal c -> small (snd (fst c)) -> small (snd c) ->
+    Inv (apply1 acct c g).
   Proof.
-    intros g acct u (Hs & Hv & Hr & Hn & Hn0 & He) (Us & Uv & Ur) (Sv & Sr).
-    unfold Inv, apply_upd. simpl. refine (conj _ (conj _ (conj _ (conj Hn (conj Hn0 He))))).
-    - intros a raw Hin. destruct (u_staking u) as [r|] eqn:E; [|eauto].
-      destruct (set_raw_in _ _ _ _ _ Hin) as [[_ ->]|H]; [|eauto].
-      destruct (Us r eq_refl) as (w & am & ->). apply staking_written_wf.
-    - revert Uv Sv. generalize (u_votes u). induction l as [|[k r] l IH]; intros Uv Sv k1 m1 a1 r1 Hin Hm; simpl in Hin; [eapply Hv; eauto|].
-      inversion Uv as [|? ? [Hk Hsh] Uv']; subst. inversion Sv as [|? ? Hsm Sv']; subst. simpl in *.
+    intros g acct [[key vraw] rraw] (Hs & Hv & Hr & Hn & Hn0 & He) (Hk & Hvs & Hrs) Sv Sr. cbn [fst snd] in *.
+    unfold Inv, apply1. cbn [fst snd g_staking g_votes g_results g_names g_names0 g_ent].
+    refine (conj Hs (conj _ (conj _ (conj Hn (conj Hn0 He))))).
+    - intros k1 m1 a1 r1 Hin Hm.
       destruct (set_votes_in _ _ _ _ _ _ _ _ Hin Hm) as [(-> & [[-> ->]|(m0 & Hm0 & Hx)])|X].
       + split; [exact Hk | apply vote_shape_ok; auto].
-      + eapply IH; eauto.
-      + eapply IH; eauto.
-    - revert Ur Sr. generalize (u_results u). induction l as [|[k r] l IH]; intros Ur Sr k1 r1 Hin; simpl in Hin; [eauto|].
-      inversion Ur as [|? ? [Hk Hsh] Ur']; subst. inversion Sr as [|? ? Hsm Sr']; subst. simpl in *.
-      destruct (set_raw_in _ _ _ _ _ Hin) as [[-> ->]|H]; [apply result_shape_ok; auto | eapply IH; eauto].
+      + eapply Hv; eauto.
+      + eapply Hv; eauto.
+    - intros k1 r1 Hin. destruct (set_raw_in _ _ _ _ _ Hin) as [[-> ->]|H]; [apply result_shape_ok; auto | eauto].
+  Qed.
+
+  Lemma apply_upd_inv : forall g acct u, Inv g -> upd_shape u -> upd_small u -> Inv (apply_upd g acct u).
+  Proof.
+    intros g acct u HI (Us & Uc) Sc. unfold apply_upd.
+    assert (H0 : Inv (set_staking acct (u_staking u) g)).
+    { destruct HI as (Hs & Hv & Hr & Hn & Hn0 & He). unfold Inv, set_staking. simpl.
+      refine (conj _ (conj Hv (conj Hr (conj Hn (conj Hn0 He))))).
+      intros a raw Hin. destruct (u_staking u) as [r|] eqn:E; [|eauto].
+      destruct (set_raw_in _ _ _ _ _ Hin) as [[_ ->]|H]; [|eauto].
+      destruct (Us r eq_refl) as (w & am & ->). apply staking_written_wf. }
+    revert Uc Sc. unfold upd_small. generalize (u_changes u). induction l as [|c l IH]; intros Uc Sc; simpl; [exact H0|].
+    inversion Uc; subst. inversion Sc as [|? ? [S1 S2] Sc']; subst. apply apply1_inv; auto.
   Qed.
 End G.
